@@ -32,8 +32,10 @@ Proof. exact decode_consumes_prefix. Qed.
 Print Assumptions C03_decode_consumes_prefix.
 
 (* the refutations of the full statement (witnesses evaluated by vm_compute) *)
-Example C03_refuted_python : exists v rest, ~ full_statement TPython v rest.
-Proof. exact decode_wire_encode_refuted_python. Qed.
+(* PYTHON >= 255 bytes was a refutation; the reader was repaired (fixed: C03-b) *)
+Example C03_long_python :
+  decode 1 TPython (wire_encode 1 TPython (VBytes (repeat x41 300)) ++ [x42]) = Ok (VBytes (repeat x41 300), [x42]).
+Proof. exact decode_long_python. Qed.
 Example C03_refuted_array : exists v rest, ~ full_statement (TArray (TUInt 1) None) v rest.
 Proof. exact decode_wire_encode_refuted_array. Qed.
 (* STRING >= 65536 bytes was the third refutation; the reader was repaired (fixed: C03-a) and the case is now inside the theorem's range *)
